@@ -28,7 +28,9 @@ RULE = ("random rose trees (1-12 leaves quick, up to 40 thorough; unary nodes, p
         "the tree the traversal is judged on is re-read after the preparation by a from-scratch walk over _child_nodes, and the model gets that tree; "
         "the evidence counts the classes: state_*, prep_*); thorough adds every shape "
         "<= 6 leaves x every start; non-trivial = start is not the seed, or a filter is given, or a falsy class is used, "
-        "or the kind is apply/in-order/age-order/ancestors/a neighbour list/a search, or the case has a state; a third of the cases run one or two other traversals (drained or "
+        "or the kind is apply/in-order/age-order/ancestors/a neighbour list/a search, or the case has a state; every run starts with a DEPTH/SIZE sweep (oracle only, no model): ladders 1 200 and 3 000 levels deep, a 3 000-child star, a "
+        "2 000-level unary chain, built from Node objects, 34 entry points each (every iterator / list form / apply / len / in-order / age order / ancestors / "
+        "find_node), judged by an iterative from-scratch oracle - a RecursionError or a wrong order is a failure; a third of the cases run one or two other traversals (drained or "
         "abandoned part-way, each judged too) on the same objects first")
 MODELLED_NOT_VERIFIED = [
     "C15: the Lean machines are hand-written from Node.preorder_iter/postorder_iter/levelorder_iter/leaf_iter/inorder_iter/"
@@ -1192,10 +1194,227 @@ def make_state_case(dendropy, rng, toks, n, kind):
     return c
 
 
+# ---------------------------------------------------------------- depth / size sweep (oracle only)
+DEEP_SHAPES = ["ladder-1200-inner-first", "ladder-3000-leaf-first", "star-3000", "chain-2000"]
+
+
+def deep_build(dendropy, shape):
+    """big trees built directly from Node objects; returns (tree, nodes in creation order)"""
+    Node = dendropy.Node
+    nodes = [Node()]
+    root = nodes[0]
+    kind, size = shape.split("-")[0], int(shape.split("-")[1])
+    cur = root
+    if kind == "ladder":
+        for _ in range(size):
+            inner, leaf = Node(), Node()
+            nodes.extend([inner, leaf])
+            for ch in ([inner, leaf] if shape.endswith("inner-first") else [leaf, inner]):
+                cur.add_child(ch)
+            cur = inner
+        a, b = Node(), Node()
+        nodes.extend([a, b])
+        cur.add_child(a)
+        cur.add_child(b)
+    elif kind == "star":
+        for _ in range(size):
+            nodes.append(cur.add_child(Node()))
+    elif kind == "chain":
+        for _ in range(size):
+            nd = Node()
+            nodes.append(nd)
+            cur.add_child(nd)
+            cur = nd
+    else:
+        raise ValueError(shape)
+    return dendropy.Tree(seed_node=root), nodes
+
+
+def it_pre(root):
+    out, stack = [], [root]
+    while stack:
+        nd = stack.pop()
+        out.append(nd)
+        stack.extend(reversed(nd._child_nodes))
+    return out
+
+
+def it_post(root):
+    out, stack = [], [(root, False)]
+    while stack:
+        nd, done = stack.pop()
+        if done:
+            out.append(nd)
+        else:
+            stack.append((nd, True))
+            stack.extend((ch, False) for ch in reversed(nd._child_nodes))
+    return out
+
+
+def it_in(root):
+    out, stack = [], [(root, False)]
+    while stack:
+        nd, mid = stack.pop()
+        k = len(nd._child_nodes)
+        if mid or k == 0:
+            out.append(nd)
+        elif k == 2:
+            stack.append((nd._child_nodes[1], False))
+            stack.append((nd, True))
+            stack.append((nd._child_nodes[0], False))
+        else:
+            return "undefined"
+    return out
+
+
+def it_brackets(root, nid):
+    out, stack = [], [(root, False)]
+    while stack:
+        nd, done = stack.pop()
+        if done:
+            out.append("a%d" % nid(nd))
+        elif not nd._child_nodes:
+            out.append("l%d" % nid(nd))
+        else:
+            out.append("b%d" % nid(nd))
+            stack.append((nd, True))
+            stack.extend((ch, False) for ch in reversed(nd._child_nodes))
+    return out
+
+
+DEEP_KINDS = ["pre", "post", "level", "leaf", "in", "preint", "postint", "ageasc", "agedescint", "anc", "apply", "len", "iter",
+              "preedge", "postedge", "leveledge", "leafedge", "inedge", "preintedge", "postintedge",
+              "nodes", "leafnodes", "internalnodes", "edges", "leafedges", "internaledges", "findnode", "tree-pre", "tree-post",
+              "tree-level", "tree-leaf", "tree-preint", "tree-postint", "tree-apply"]
+
+
+def deep_case(ctx, dendropy, shape, kind, prepared=None):
+    """one entry point on one big tree, judged by the iterative from-scratch oracle; a RecursionError (or any other
+    exception where the statement defines the answer) and a wrong order are failures"""
+    if prepared is not None:
+        return deep_judge(ctx, dendropy, shape, kind, *prepared)
+    tree, nodes = deep_build(dendropy, shape)
+    return deep_judge(ctx, dendropy, shape, kind, tree, nodes, deep_orders(tree, nodes))
+
+
+def deep_orders(tree, nodes):
+    """the defining orders of a big tree, computed once, iteratively, from the child lists"""
+    root = tree.seed_node
+    pre, post = it_pre(root), it_post(root)
+    level, cur = [], [root]
+    while cur:
+        level.extend(cur)
+        cur = [ch for x in cur for ch in x._child_nodes]
+    nmap = {id(nd): i for i, nd in enumerate(nodes)}
+    return pre, post, level, it_in(root), it_brackets(root, lambda x: nmap[id(x)])
+
+
+def deep_judge(ctx, dendropy, shape, kind, tree, nodes, orders):
+    root = tree.seed_node
+    nmap = {id(nd): i for i, nd in enumerate(nodes)}
+    emap = {id(nd.edge): i for i, nd in enumerate(nodes)}
+    nid = lambda x: nmap.get(id(x), "?")
+    eid = lambda e: emap.get(id(e), "?")
+    pre, post, level, inord, brackets = orders
+    leaf = lambda x: not x._child_nodes
+    parent = {id(ch): nd for nd in pre for ch in nd._child_nodes}
+    deepest = level[-1]
+    chain, x = [], deepest
+    while id(x) in parent:
+        x = parent[id(x)]
+        chain.append(x)
+    ages = {id(nd): i % 7 for i, nd in enumerate(nodes)}
+    I = lambda l: [nid(x) for x in l]
+    rep = {"deep": shape, "kind": kind}
+    ctx.case(["deep", shape, kind], True, sample=rep, kind="deep-" + kind)
+    N = lambda it: [nid(x) for x in it]
+    E = lambda it: [eid(x) for x in it]
+    ev = []
+    cb = dict(before_fn=lambda x: ev.append("b%s" % nid(x)), after_fn=lambda x: ev.append("a%s" % nid(x)),
+              leaf_fn=lambda x: ev.append("l%s" % nid(x)))
+    table = {
+        "pre": (lambda: N(root.preorder_iter()), I(pre)), "post": (lambda: N(root.postorder_iter()), I(post)),
+        "level": (lambda: N(root.levelorder_iter()), I(level)), "leaf": (lambda: N(root.leaf_iter()), I(x for x in pre if leaf(x))),
+        "in": (lambda: N(root.inorder_iter()), inord if inord == "undefined" else I(inord)),
+        "preint": (lambda: N(root.preorder_internal_node_iter(exclude_seed_node=True)), I(x for x in pre[1:] if not leaf(x))),
+        "postint": (lambda: N(root.postorder_internal_node_iter()), I(x for x in post if not leaf(x))),
+        "anc": (lambda: N(deepest.ancestor_iter(inclusive=True)), I([deepest] + chain)),
+        "apply": (lambda: (root.apply(**cb), ev)[1], brackets),
+        "tree-apply": (lambda: (tree.apply(**cb), ev)[1], brackets),
+        "len": (lambda: [len(tree)], [len([x for x in pre if leaf(x)])]), "iter": (lambda: N(iter(tree)), I(pre)),
+        "tree-pre": (lambda: N(tree.preorder_node_iter()), I(pre)), "tree-post": (lambda: N(tree.postorder_node_iter()), I(post)),
+        "tree-level": (lambda: N(tree.levelorder_node_iter()), I(level)), "tree-leaf": (lambda: N(tree.leaf_node_iter()), I(x for x in pre if leaf(x))),
+        "tree-preint": (lambda: N(tree.preorder_internal_node_iter()), I(x for x in pre if not leaf(x))),
+        "tree-postint": (lambda: N(tree.postorder_internal_node_iter(exclude_seed_node=True)), I(x for x in post if not leaf(x) and x is not root)),
+        "preedge": (lambda: E(tree.preorder_edge_iter()), I(pre)), "postedge": (lambda: E(tree.postorder_edge_iter()), I(post)),
+        "leveledge": (lambda: E(tree.levelorder_edge_iter()), I(level)), "leafedge": (lambda: E(tree.leaf_edge_iter()), I(x for x in pre if leaf(x))),
+        "inedge": (lambda: E(tree.inorder_edge_iter()), inord if inord == "undefined" else I(inord)),
+        "preintedge": (lambda: E(tree.preorder_internal_edge_iter()), I(x for x in pre if not leaf(x))),
+        "postintedge": (lambda: E(tree.postorder_internal_edge_iter(exclude_seed_edge=True)), I(x for x in post if not leaf(x) and x is not root)),
+        "nodes": (lambda: N(tree.nodes()), I(pre)), "leafnodes": (lambda: N(tree.leaf_nodes()), I(x for x in pre if leaf(x))),
+        "internalnodes": (lambda: N(tree.internal_nodes()), I(x for x in pre if not leaf(x))),
+        "edges": (lambda: E(tree.edges()), I(pre)), "leafedges": (lambda: E(tree.leaf_edges()), I(x for x in pre if leaf(x))),
+        "internaledges": (lambda: E(tree.internal_edges(exclude_seed_edge=True)), I(x for x in pre[1:] if not leaf(x))),
+        "findnode": (lambda: N([tree.find_node(lambda x: x is deepest)]), I([deepest])),
+    }
+    if kind in ("ageasc", "agedescint"):
+        for nd in nodes:
+            nd.age = float(ages[id(nd)])
+        desc = kind == "agedescint"
+        try:
+            with time_limit(30):
+                got = list(root.ageorder_iter(include_leaves=not desc, descending=desc))
+        except Exception as e:
+            if not common.is_library_exception(e):
+                raise
+            ctx.fail("deep-exception", "%s on %s raised %s" % (kind, shape, type(e).__name__), rep)
+            return
+        want = [x for x in pre if not (desc and leaf(x))]
+        vals = [ages[id(x)] for x in got]
+        if sorted(N(got), key=str) != sorted(I(want), key=str) or any((a < b) if desc else (a > b) for a, b in zip(vals, vals[1:])):
+            ctx.fail("age-order", "%s on %s: %d nodes yielded, %d expected, or ages not monotone" % (kind, shape, len(got), len(want)), rep)
+        return
+    fn, want = table[kind]
+    try:
+        with time_limit(30):
+            got = fn()
+    except common.Timeout:
+        ctx.fail("hang", "%s on %s does not finish within 30 s" % (kind, shape), rep)
+        return
+    except Exception as e:
+        if not common.is_library_exception(e):
+            raise
+        if want == "undefined" and deliberate(e):
+            return
+        ctx.fail("deep-recursion" if isinstance(e, RecursionError) else "deep-exception",
+                 "%s on the tree %s (%d nodes) raised %s where the statement defines the answer (%s items): the traversal is "
+                 "bounded by the interpreter stack, not by the tree" % (kind, shape, len(nodes), type(e).__name__,
+                                                                      len(want) if isinstance(want, list) else want), rep)
+        return
+    if want == "undefined":
+        return
+    if got != want:
+        k = next((i for i, (a, b) in enumerate(zip(got, want)) if a != b), min(len(got), len(want)))
+        ctx.fail("order", "%s on the tree %s: %d items, %d expected; first difference at position %d (%s vs %s)" % (
+            kind, shape, len(got), len(want), k, got[k] if k < len(got) else "end", want[k] if k < len(want) else "end"), rep)
+
+
+def deep_sweep(ctx, dendropy):
+    """every run: every iterator / list form / apply / len once on each big tree (ladders 1 200 and 3 000 deep, a
+    3 000-child star, a 2 000-level unary chain) - the statement quantifies over all shapes and sizes"""
+    for shape in DEEP_SHAPES:
+        tree, nodes = deep_build(dendropy, shape)
+        prepared = (tree, nodes, deep_orders(tree, nodes))     # traversals are read-only: one tree serves every kind
+        for kind in DEEP_KINDS:
+            deep_case(ctx, dendropy, shape, kind, prepared)
+            ctx.count("deep_sweep_cases")
+
+
 def run(ctx):
     dendropy = __import__("dendropy")
     rng = ctx.rng
     ctx.set_budget(35, 420)
+    deep_sweep(ctx, dendropy)
     pending = []
     ncases = ctx.pick(6000, 120000)
     max_leaves = ctx.pick(12, 40)
@@ -1276,6 +1495,9 @@ def search(ctx, broken):
 
 def replay(ctx, rec):
     dendropy = __import__("dendropy")
+    if "deep" in rec["replay"]:
+        deep_case(ctx, dendropy, rec["replay"]["deep"], rec["replay"]["kind"])
+        return
     pending = []
     one_case(ctx, dendropy, rec["replay"], pending)
     flush(ctx, pending)
